@@ -22,8 +22,10 @@ pub open spec fn convs_ok<F: FileSystem>() -> bool {
 pub open spec fn opt_fh_u64<F: FileSystem>(h: Option<F::Handle>) -> u64 { match h { Some(v) => fh_u64::<F>(v), None => 0 } }
 
 // ---- names on the wire: bytes up to the first NUL
+#[verifier::opaque]
 pub open spec fn has_nul(s: Seq<u8>) -> bool { exists|i: int| 0 <= i < s.len() && s[i] == 0u8 }
 pub open spec fn first_nul(s: Seq<u8>) -> int { choose|i: int| 0 <= i < s.len() && s[i] == 0u8 && forall|j: int| 0 <= j < i ==> s[j] != 0u8 }
+#[verifier::opaque]
 pub open spec fn cstr_of(s: Seq<u8>) -> Seq<u8> { s.subrange(0, first_nul(s)) }
 // crate::bytes_to_cstr (src/lib.rs) scans with iter().position, an adapter Verus has no specification for: contract only
 // (std meaning of position + CStr::from_bytes_with_nul), listed as assumed
@@ -43,10 +45,13 @@ pub open spec fn spec_kind_errno(k: io::ErrorKind) -> i32 {
 }
 // "errors sent as the negated errno"
 pub open spec fn err_code(e: io::Error) -> i32 { match e.os_code() { Some(c) => c, None => spec_kind_errno(e.skind()) } }
+#[verifier::opaque]
 pub open spec fn errno_reply(unique: u64, code: i32) -> Seq<u8> { hdr_bytes(16, (-code) as i32, unique) }
 pub open spec fn err_reply(unique: u64, e: io::Error) -> Seq<u8> { errno_reply(unique, err_code(e)) }
+#[verifier::opaque]
 pub open spec fn ok_reply(unique: u64, d2: Seq<u8>, d3: Seq<u8>) -> Seq<u8> { hdr_bytes(16 + d2.len() + d3.len(), 0, unique) + d2 + d3 }
 // any well-formed error reply for this request (what a malformed request may be answered with)
+#[verifier::opaque]
 pub open spec fn is_err_reply(unique: u64, b: Seq<u8>) -> bool {
     b.len() == 16 && ({ let h = <OutHeader as ByteValued>::sdecode(b); h.len == 16 && h.unique == unique && h.error < 0 && h.error != i32::MIN })
 }
